@@ -93,7 +93,7 @@ impl RelationToQueryTranslator for BigQueryTranslator {
             .zip(join.schema().iter())
             .map(|(expr, field)| ast::SelectItem::ExprWithAlias {
                 expr,
-                alias: field.name().into(),
+                alias: self.identifier(&(field.name().into()))[0].clone(),
             })
             .collect()
     }
